@@ -239,12 +239,19 @@ class Config:
                 if actual_type != type_:
                     raise SocketTypeError(type_, actual_type)
             else:
-                bind = bind.replace("[", "").replace("]", "")
-                try:
-                    value = bind.rsplit(":", 1)
-                    host, port = value[0], int(value[1])
-                except (ValueError, IndexError):
-                    host, port = bind, 8000
+                if bind.startswith("["):
+                    # [IPv6 host]:port or a bare [IPv6 host]
+                    host, _, port_part = bind[1:].partition("]")
+                    try:
+                        port = int(port_part[1:])
+                    except ValueError:
+                        port = 8000
+                else:
+                    try:
+                        value = bind.rsplit(":", 1)
+                        host, port = value[0], int(value[1])
+                    except (ValueError, IndexError):
+                        host, port = bind, 8000
                 sock = socket.socket(socket.AF_INET6 if ":" in host else socket.AF_INET, type_)
 
                 if type_ == socket.SOCK_STREAM:
